@@ -156,6 +156,22 @@ M: List[Tuple[str, str, str, str, str]] = [
     ('c13-gzip-truncated', 'C13', 'proxy/http/responses.py',
      "            body=gzip.compress(content)\n            if do_compress and content",
      "            body=gzip.compress(content[:2048])\n            if do_compress and content"),
+    # ---- C12 ---------------------------------------------------------------
+    ('c12-https-default-port-for-http', 'C12', 'proxy/http/server/reverse.py',
+     "                self.choice.port or DEFAULT_HTTP_PORT\n                if self.choice.scheme == HTTP_PROTO",
+     "                self.choice.port or DEFAULT_HTTPS_PORT\n                if self.choice.scheme == HTTP_PROTO"),
+    ('c12-always-rewrite-host', 'C12', 'proxy/http/server/reverse.py',
+     "                                if self.flags.rewrite_host_header\n                                else None",
+     "                                if self.flags.rewrite_host_header or self.choice.port is None\n                                else None"),
+    ('c12-route-search', 'C12', 'proxy/http/server/reverse.py',
+     "                    pattern = re.compile(route[0])\n                    if pattern.match(text_(request.path)):",
+     "                    pattern = re.compile(route[0])\n                    if pattern.search(text_(request.path)):"),
+    ('c12-keep-client-path', 'C12', 'proxy/http/server/reverse.py',
+     "                request.path = self.choice.remainder\n",
+     "                request.path = self.choice.remainder if self.choice.remainder != b'/' else request.path\n"),
+    ('c12-rewrite-drops-port', 'C12', 'proxy/http/server/reverse.py',
+     "                                    if self.choice.port is not None\n                                    else b''",
+     "                                    if self.choice.port is not None and self.choice.port != 8080\n                                    else b''"),
 ]
 
 
